@@ -1,5 +1,5 @@
 /- C08 — property theorems. -/
-import TornadoModel.C08.Lemmas
+import TornadoModel.C08.Agree
 namespace TornadoModel.C08
 open TornadoModel.C06
 
@@ -78,10 +78,6 @@ theorem client_body_le_limit (cfg : Cfg) (Z : Bytes → GzRes) (segs : List Byte
 
 /-! ### agreement with the strict batch reader -/
 
-def Res.toSpec : Res → Option Res
-  | .err _ => none
-  | r => some r
-
 /-- the full statement of the property on one stream -/
 def client_agrees_with_spec_full : Prop :=
   ∀ (cfg : Cfg) (Z : Bytes → GzRes) (s : Bytes) (eof : Bool), (run cfg Z [s] eof).toSpec = Spec.readAll cfg Z s eof
@@ -106,13 +102,22 @@ theorem gzip_strict_refuted : ¬ client_agrees_with_spec_full := by
   rw [witness_model, witness_spec] at this
   simp [Res.toSpec] at this
 
-/-- stretch, tie only: segmentation independence of the machine (checked by the correspondence stream, which runs
-    every stream in several segmentations against `Spec.readAll` of the joined stream). -/
-def feed_append_goal : Prop :=
-  ∀ (cfg : Cfg) (s : Phase × Bytes) (a b : Bytes), (feed cfg (feed cfg s a) b).1 = (feed cfg s (a ++ b)).1
+/-! ### segmentation independence -/
 
-def client_segmentation_independent_goal : Prop :=
-  ∀ (cfg : Cfg) (Z : Bytes → GzRes) (segs : List Bytes) (eof : Bool), run cfg Z segs eof = run cfg Z [segs.flatten] eof
+/-- **feed_append**: feeding two segments one after the other leaves the machine in the same phase as feeding their
+    concatenation — from any state `s` (every read of the machine is prefix stable: `step_append`). -/
+theorem feed_append (cfg : Cfg) (s : Phase × Bytes) (a b : Bytes) :
+    (feed cfg (feed cfg s a) b).1 = (feed cfg s (a ++ b)).1 :=
+  feed_append' cfg s a b
+
+/-- **client_segmentation_independent**: the result of a fetch depends only on the concatenation of the segments the
+    server sends (and on whether it closes), not on where the stream is cut. -/
+theorem client_segmentation_independent (cfg : Cfg) (Z : Bytes → GzRes) (segs : List Bytes) (eof : Bool) :
+    run cfg Z segs eof = run cfg Z [segs.flatten] eof := by
+  unfold run
+  rw [runPhase_flatten]
+
+example : run wCfg wZ [wStream.take 7, wStream.drop 7] true = run wCfg wZ [wStream] true := by decide
 
 /-- stretch, tie only: agreement with the batch reader when no decompression is requested -/
 def client_agrees_with_spec_goal : Prop :=
